@@ -162,8 +162,15 @@ func init() {
 			o.Guarded(mg, "merge-overlap|"+itoa(i), "merging two submissions whose activity ranges do not overlap", pr[0], pr[1])
 		}
 		found := L("("+gx+"#1 == nil)", true)
-		o.Forced(fn, "merge-forced-end", "a submission whose end lies inside the stored alert's range must be merged with it (otherwise the end time can move backwards)", IsInstr(mg), a1, a2, found)
-		o.Forced(fn, "merge-forced-start", "a submission whose start lies inside the stored alert's range must be merged with it (otherwise the earliest start is lost)", IsInstr(mg), b1, b2, found)
+		// per submitted alert: from the start of its iteration, with the stored alert found and the ranges
+		// overlapping, whatever else is tested, the merge happens before the next alert is taken up
+		if ml := e.LoopOf(mg); o.Check(ml != nil, "merge-loop", "alerts are not merged in the loop over the submissions", mg) {
+			for _, lit := range []LitM{a1, a2, b1, b2, found} {
+				o.Check(e.CountLitEdges(fn, lit)+e.CountLitEdges(fn, lit.Neg()) > 0, "merge-forced-atom", "Put no longer tests "+lit.Desc, mg)
+			}
+			o.Check(!loopBackWithout(o, ml, IsInstr(mg), e.CutContradicting(a1, a2, found)), "merge-forced-end", "a submission whose end lies inside the stored alert's range must be merged with it (otherwise the end time can move backwards)", mg)
+			o.Check(!loopBackWithout(o, ml, IsInstr(mg), e.CutContradicting(b1, b2, found)), "merge-forced-start", "a submission whose start lies inside the stored alert's range must be merged with it (otherwise the earliest start is lost)", mg)
+		}
 		// Merge
 		m := o.Fn("(*am/alert.Alert).Merge")
 		older := L("(p0.UpdatedAt <t recv.UpdatedAt)", true)
@@ -200,6 +207,67 @@ func init() {
 			{Name: "younger firing, older earlier end", Assume: A(older.Neg(), oRes.Neg(), later.Neg()), Never: nv},
 		})
 		o.MinSites(6)
+	})
+
+	reg("C13", "C13.6", "T11,T8", "GET /alerts reports, per alert, the receivers routing selects for that alert, in a list of its own", func(o *Ob) {
+		e := o.E
+		fn := o.Fn("(*am/api/v2.API).getAlertsHandler")
+		conv := o.Some(e.Calls(fn, "am/api/v2.AlertToOpenAPIAlert"), "convert", "getAlertsHandler must convert the stored alerts", fn)
+		for _, c := range conv {
+			o.Site(c, "alert → API alert with receivers "+e.Arg(c, 2))
+			al := e.Arg(c, 0)
+			bases, parts := e.AppendParts(e.ArgV(c, 2))
+			type elem struct {
+				v  ssa.Value
+				at ssa.Instruction
+			}
+			var elems []elem
+			for _, p := range parts {
+				o.Check(!p.Spread, "receivers-source", "receivers must be collected one route at a time", p.Call)
+				elems = append(elems, elem{p.V, p.Call})
+			}
+			for _, b := range bases {
+				// AlertToOpenAPIAlert keeps pointers into the list: a list re-used across alerts makes earlier
+				// alerts report the receivers of later ones.  So: a slice made inside the per-alert loop (filled
+				// by append or by index), or nil.
+				ms, fresh := b.(*ssa.MakeSlice)
+				if k, isK := b.(*ssa.Const); isK && k.Value == nil {
+					continue
+				}
+				inLoop := false
+				if fresh {
+					if l := e.LoopOf(c); l != nil && l.Blocks[ms.Block().Index] {
+						inLoop = true
+					}
+					// elements stored by index
+					if refs := ms.Referrers(); refs != nil {
+						for _, r := range *refs {
+							if ia, ok := r.(*ssa.IndexAddr); ok {
+								if rr := ia.Referrers(); rr != nil {
+									for _, u := range *rr {
+										if st, ok := u.(*ssa.Store); ok && st.Addr == ssa.Value(ia) {
+											elems = append(elems, elem{st.Val, st})
+										}
+									}
+								}
+							}
+						}
+					}
+				}
+				o.Check(fresh && inLoop, "receivers-shared", "the receiver list of an alert is built in storage shared with other alerts ("+e.X(fn, b)+"): the API alerts keep pointers into it", c)
+			}
+			o.Check(len(elems) >= 1, "receivers-empty", "the receivers of an alert are never filled in", c)
+			for _, el := range elems {
+				v := e.X(fn, el.v)
+				o.Check(v == "(*am/dispatch.Route).Match(recv.route, "+al+".Alert.Labels)[i].RouteOpts.Receiver", "receivers-source", "a reported receiver must be the receiver of a route matched for this alert's labels, is "+v, el.at)
+				if l := e.LoopOf(el.at); o.Check(l != nil, "receivers-loop", "receivers are not collected in a loop over the matched routes", el.at) {
+					coll, kind := e.RangeOver(l)
+					o.Check(coll == "(*am/dispatch.Route).Match(recv.route, "+al+".Alert.Labels)" && kind == "index" && len(e.EarlyExits(l)) == 0, "receivers-range", "every matched route's receiver must be reported", el.at)
+					o.Check(!loopBackWithout(o, l, IsInstr(el.at), nil), "receivers-skip", "a matched route can be left out of the reported receivers", el.at)
+				}
+			}
+		}
+		o.MinSites(1)
 	})
 
 	reg("C13", "C13.5", "T1", "GET /alerts drops exactly the alerts whose end is set and before now; only resolved alerts are garbage collected", func(o *Ob) {
